@@ -39,6 +39,8 @@
 (*                       return its slots (NoSlotLeak fails).  Self-test.  *)
 (*   DevDropOnPeerFull   a full per-peer semaphore drops instead of        *)
 (*                       blocking (BackPressureNotDrop fails).  Self-test. *)
+(*   DevStop2NoWait      a Stop that finds the group already closed returns     *)
+(*                       without waiting (StopWaits fails).  Self-test.         *)
 (*   DevAddUnlocked      ThreadGroup.Add tests `closed` and joins in two   *)
 (*                       steps (StopWaits fails).  Self-test.              *)
 (***************************************************************************)
@@ -57,7 +59,9 @@ CONSTANTS
     Threads,        \* plain users of the thread group
     WithRun,        \* TRUE: Syncer.Run is a member of the group and tears the peers down on Stop
     AllowDisconnect,\* TRUE: a peer may hang up at any moment
-    DevCapCheckThenAct, DevSweepOnce, DevLeakOnTgFail, DevDropOnPeerFull, DevAddUnlocked
+    TwoStoppers,    \* TRUE: a second Stop/Close may be called while the first one is waiting
+    DevCapCheckThenAct, DevSweepOnce, DevLeakOnTgFail, DevDropOnPeerFull, DevAddUnlocked,
+    DevStop2NoWait  \* self-test: a Stop that finds the group already closed returns at once
 
 VARIABLES
     lim,         \* [maxInflight, maxSubnet, maxIn, maxOut, sub : Peers -> Subnets]
@@ -68,6 +72,7 @@ VARIABLES
     gone,        \* per peer: the peer hung up
     tgLive,      \* threadgroup: WaitGroup counter
     stop,        \* "no" | "closed" (closed channel closed) | "waiting" (wg.Wait) | "returned"
+    stop2,       \* a second, overlapping Stop: "idle" | "waiting" (found the channel closed; wg.Wait) | "returned"
     lclosed,     \* the listener is closed (first statement of Syncer.Close)
     peersClosed, \* Run's teardown has run: it closed every peer that was in s.peers at that moment
     dead,        \* per connection attempt: its transport was closed by that teardown
@@ -76,8 +81,8 @@ VARIABLES
     th,          \* per thread: "idle","chk","live","done","refused"
     act
 
-vars == <<lim, st, out, sem, sub, loopOn, gone, tgLive, stop, lclosed, peersClosed, dead, runLive, conn, th, act>>
-view == <<lim, st, out, sem, sub, loopOn, gone, tgLive, stop, lclosed, peersClosed, dead, runLive, conn, th>>
+vars == <<lim, st, out, sem, sub, loopOn, gone, tgLive, stop, lclosed, peersClosed, dead, runLive, conn, th, stop2, act>>
+view == <<lim, st, out, sem, sub, loopOn, gone, tgLive, stop, lclosed, peersClosed, dead, runLive, conn, th, stop2>>
 
 RpcIds == 1..NRpc
 Conns == InConns \cup OutConns
@@ -113,6 +118,7 @@ TypeOK ==
     /\ loopOn \in [Peers -> BOOLEAN] /\ gone \in [Peers -> BOOLEAN]
     /\ tgLive \in Nat
     /\ stop \in {"no", "closed", "waiting", "returned"}
+    /\ stop2 \in {"idle", "waiting", "returned"}
     /\ peersClosed \in BOOLEAN /\ lclosed \in BOOLEAN /\ runLive \in {0, 1}
     /\ dead \in [Conns -> BOOLEAN]
     /\ conn \in [Conns -> {"idle", "checked", "shaken", "peer", "running", "rejected", "closed"}]
@@ -128,7 +134,7 @@ InitState(l) ==
     /\ gone = [p \in Peers |-> FALSE]
     /\ runLive = IF WithRun THEN 1 ELSE 0
     /\ tgLive = Cardinality(Peers) + runLive      \* every runPeer joined the group when it started; so did Run
-    /\ stop = "no"
+    /\ stop = "no" /\ stop2 = "idle"
     /\ peersClosed = FALSE /\ lclosed = FALSE
     /\ dead = [c \in Conns |-> FALSE]
     /\ conn = [c \in Conns |-> "idle"]
@@ -148,7 +154,7 @@ Arrive(p, r) ==
     /\ G_Arrive(p, r)
     /\ st' = [st EXCEPT ![p][r] = "arrived"]
     /\ act' = Lbl("Arrive", p, r)
-    /\ UNCHANGED <<lim, out, sem, sub, loopOn, gone, tgLive, stop, lclosed, peersClosed, dead, runLive, conn, th>>
+    /\ UNCHANGED <<lim, out, sem, sub, loopOn, gone, tgLive, stop, lclosed, peersClosed, dead, runLive, conn, th, stop2>>
 
 \* `inflight <- struct{}{}` : BLOCKS while the semaphore is full (not enabled).  After Stop the select may
 \* still take this branch (Go picks at random among ready cases), so `stop` is not consulted.
@@ -166,7 +172,7 @@ AcquirePeer(p) ==
                    /\ out' = [out EXCEPT ![p][r] = "droppeer"]
                    /\ sem' = sem
          /\ act' = Lbl("AcquirePeer", p, r)
-    /\ UNCHANGED <<lim, sub, loopOn, gone, tgLive, stop, lclosed, peersClosed, dead, runLive, conn, th>>
+    /\ UNCHANGED <<lim, sub, loopOn, gone, tgLive, stop, lclosed, peersClosed, dead, runLive, conn, th, stop2>>
 
 \* acquireInflight: non-blocking; failure = `<-inflight; stream.Close(); continue`
 G_AcquireSubnet(p) == loopOn[p] /\ \E r \in RpcIds : st[p][r] = "gotpeer"
@@ -184,7 +190,7 @@ AcquireSubnet(p) ==
                 /\ sem' = [sem EXCEPT ![p] = @ - 1]
                 /\ sub' = sub
                 /\ act' = Lbl("DropSubnet", p, r)
-    /\ UNCHANGED <<lim, loopOn, gone, tgLive, stop, lclosed, peersClosed, dead, runLive, conn, th>>
+    /\ UNCHANGED <<lim, loopOn, gone, tgLive, stop, lclosed, peersClosed, dead, runLive, conn, th, stop2>>
 
 \* `go func() { ... }()`
 G_Spawn(p) == loopOn[p] /\ \E r \in RpcIds : st[p][r] = "gotsub"
@@ -193,7 +199,7 @@ Spawn(p) ==
     /\ LET r == TheOne({x \in RpcIds : st[p][x] = "gotsub"}) IN
          /\ st' = [st EXCEPT ![p][r] = "spawned"]
          /\ act' = Lbl("Spawn", p, r)
-    /\ UNCHANGED <<lim, out, sem, sub, loopOn, gone, tgLive, stop, lclosed, peersClosed, dead, runLive, conn, th>>
+    /\ UNCHANGED <<lim, out, sem, sub, loopOn, gone, tgLive, stop, lclosed, peersClosed, dead, runLive, conn, th, stop2>>
 
 \* handler goroutine: s.tg.Add(); refused after Stop -> the two deferred releases run
 G_TgAdd(p, r) == st[p][r] = "spawned"
@@ -208,7 +214,7 @@ TgAdd(p, r) ==
               /\ out' = [out EXCEPT ![p][r] = "rejected"]
               /\ tgLive' = tgLive
               /\ act' = Lbl("TgRefuse", p, r)
-    /\ UNCHANGED <<lim, sem, sub, loopOn, gone, stop, lclosed, peersClosed, dead, runLive, conn, th>>
+    /\ UNCHANGED <<lim, sem, sub, loopOn, gone, stop, lclosed, peersClosed, dead, runLive, conn, th, stop2>>
 
 \* the handler returns (the response is written unless the transport is already dead: the peer hung up, Run
 \* closed it, or runPeer returned -- the accepting goroutine closes the connection when runPeer returns)
@@ -221,7 +227,7 @@ Handle(p, r) ==
     /\ out' = [out EXCEPT ![p][r] = IF peersClosed \/ gone[p] \/ ~loopOn[p] THEN "lost"
                                      ELSE IF lclosed THEN "maybe" ELSE "answered"]
     /\ act' = Lbl("Handle", p, r)
-    /\ UNCHANGED <<lim, sem, sub, loopOn, gone, tgLive, stop, lclosed, peersClosed, dead, runLive, conn, th>>
+    /\ UNCHANGED <<lim, sem, sub, loopOn, gone, tgLive, stop, lclosed, peersClosed, dead, runLive, conn, th, stop2>>
 
 \* deferred calls run LIFO: stream.Close, done() -- the group is left BEFORE the slots are returned
 G_HandleDone(p, r) == st[p][r] = "exited"
@@ -230,7 +236,7 @@ HandleDone(p, r) ==
     /\ st' = [st EXCEPT ![p][r] = "ending"]
     /\ tgLive' = tgLive - 1
     /\ act' = Lbl("HandleDone", p, r)
-    /\ UNCHANGED <<lim, out, sem, sub, loopOn, gone, stop, lclosed, peersClosed, dead, runLive, conn, th>>
+    /\ UNCHANGED <<lim, out, sem, sub, loopOn, gone, stop, lclosed, peersClosed, dead, runLive, conn, th, stop2>>
 
 G_ReleaseSubnet(p, r) == st[p][r] = "ending"
 ReleaseSubnet(p, r) ==
@@ -238,7 +244,7 @@ ReleaseSubnet(p, r) ==
     /\ st' = [st EXCEPT ![p][r] = "relsub"]
     /\ sub' = IF SubnetOn THEN [sub EXCEPT ![SubnetOf(p)] = @ - 1] ELSE sub
     /\ act' = Lbl("ReleaseSubnet", p, r)
-    /\ UNCHANGED <<lim, out, sem, loopOn, gone, tgLive, stop, lclosed, peersClosed, dead, runLive, conn, th>>
+    /\ UNCHANGED <<lim, out, sem, loopOn, gone, tgLive, stop, lclosed, peersClosed, dead, runLive, conn, th, stop2>>
 
 G_ReleasePeer(p, r) == st[p][r] = "relsub"
 ReleasePeer(p, r) ==
@@ -246,7 +252,7 @@ ReleasePeer(p, r) ==
     /\ st' = [st EXCEPT ![p][r] = "final"]
     /\ sem' = [sem EXCEPT ![p] = @ - 1]
     /\ act' = Lbl("ReleasePeer", p, r)
-    /\ UNCHANGED <<lim, out, sub, loopOn, gone, tgLive, stop, lclosed, peersClosed, dead, runLive, conn, th>>
+    /\ UNCHANGED <<lim, out, sub, loopOn, gone, tgLive, stop, lclosed, peersClosed, dead, runLive, conn, th, stop2>>
 
 \* runPeer returns: at the select (`<-s.tg.Done()`) once Stop has begun, or at acceptRPC once the transport
 \* is dead (peer hung up / Run closed the peers).  Deliberately permissive about which of the two.
@@ -256,7 +262,7 @@ LoopExit(p) ==
     /\ loopOn' = [loopOn EXCEPT ![p] = FALSE]
     /\ tgLive' = tgLive - 1
     /\ act' = Lbl("LoopExit", p, 0)
-    /\ UNCHANGED <<lim, st, out, sem, sub, gone, stop, lclosed, peersClosed, dead, runLive, conn, th>>
+    /\ UNCHANGED <<lim, st, out, sem, sub, gone, stop, lclosed, peersClosed, dead, runLive, conn, th, stop2>>
 
 \* a stream that arrived but was never taken dies with the connection
 G_Abandon(p, r) == st[p][r] = "arrived" /\ ~loopOn[p]
@@ -265,14 +271,14 @@ Abandon(p, r) ==
     /\ st' = [st EXCEPT ![p][r] = "final"]
     /\ out' = [out EXCEPT ![p][r] = "dropshut"]
     /\ act' = Lbl("Abandon", p, r)
-    /\ UNCHANGED <<lim, sem, sub, loopOn, gone, tgLive, stop, lclosed, peersClosed, dead, runLive, conn, th>>
+    /\ UNCHANGED <<lim, sem, sub, loopOn, gone, tgLive, stop, lclosed, peersClosed, dead, runLive, conn, th, stop2>>
 
 G_Disconnect(p) == AllowDisconnect /\ ~gone[p]
 Disconnect(p) ==
     /\ G_Disconnect(p)
     /\ gone' = [gone EXCEPT ![p] = TRUE]
     /\ act' = Lbl("Disconnect", p, 0)
-    /\ UNCHANGED <<lim, st, out, sem, sub, loopOn, tgLive, stop, lclosed, peersClosed, dead, runLive, conn, th>>
+    /\ UNCHANGED <<lim, st, out, sem, sub, loopOn, tgLive, stop, lclosed, peersClosed, dead, runLive, conn, th, stop2>>
 
 -----------------------------------------------------------------------------
 (* thread group, Run *)
@@ -283,28 +289,45 @@ CloseListener ==
     /\ G_CloseListener
     /\ lclosed' = TRUE
     /\ act' = Lbl("CloseListener", "", 0)
-    /\ UNCHANGED <<lim, st, out, sem, sub, loopOn, gone, tgLive, stop, peersClosed, dead, runLive, conn, th>>
+    /\ UNCHANGED <<lim, st, out, sem, sub, loopOn, gone, tgLive, stop, peersClosed, dead, runLive, conn, th, stop2>>
 
 G_StopBegin == stop = "no" /\ (WithRun => lclosed)
 StopBegin ==
     /\ G_StopBegin
     /\ stop' = "closed"
     /\ act' = Lbl("StopBegin", "", 0)
-    /\ UNCHANGED <<lim, st, out, sem, sub, loopOn, gone, tgLive, lclosed, peersClosed, dead, runLive, conn, th>>
+    /\ UNCHANGED <<lim, st, out, sem, sub, loopOn, gone, tgLive, lclosed, peersClosed, dead, runLive, conn, th, stop2>>
 
 G_StopWait == stop = "closed"
 StopWait ==
     /\ G_StopWait
     /\ stop' = "waiting"
     /\ act' = Lbl("StopWait", "", 0)
-    /\ UNCHANGED <<lim, st, out, sem, sub, loopOn, gone, tgLive, lclosed, peersClosed, dead, runLive, conn, th>>
+    /\ UNCHANGED <<lim, st, out, sem, sub, loopOn, gone, tgLive, lclosed, peersClosed, dead, runLive, conn, th, stop2>>
 
 G_StopReturn == stop = "waiting" /\ tgLive = 0
 StopReturn ==
     /\ G_StopReturn
     /\ stop' = "returned"
     /\ act' = Lbl("StopReturn", "", 0)
-    /\ UNCHANGED <<lim, st, out, sem, sub, loopOn, gone, tgLive, lclosed, peersClosed, dead, runLive, conn, th>>
+    /\ UNCHANGED <<lim, st, out, sem, sub, loopOn, gone, tgLive, lclosed, peersClosed, dead, runLive, conn, th, stop2>>
+
+\* Stop / Close may be called again while the first call is still waiting (Stop is written to be called twice:
+\* `select { case <-tg.closed: default: close(tg.closed) }`).  The second caller finds the channel closed and
+\* must wait for the members just like the first: EVERY Stop returns only when no member is live.
+G_Stop2Begin == TwoStoppers /\ stop2 = "idle" /\ stop # "no"
+Stop2Begin ==
+    /\ G_Stop2Begin
+    /\ stop2' = IF DevStop2NoWait THEN "returned" ELSE "waiting"
+    /\ act' = Lbl("Stop2Begin", "", 0)
+    /\ UNCHANGED <<lim, st, out, sem, sub, loopOn, gone, tgLive, stop, lclosed, peersClosed, dead, runLive, conn, th>>
+
+G_Stop2Return == stop2 = "waiting" /\ tgLive = 0
+Stop2Return ==
+    /\ G_Stop2Return
+    /\ stop2' = "returned"
+    /\ act' = Lbl("Stop2Return", "", 0)
+    /\ UNCHANGED <<lim, st, out, sem, sub, loopOn, gone, tgLive, stop, lclosed, peersClosed, dead, runLive, conn, th>>
 
 \* the listener is closed; acceptLoop fails; Run's teardown closes every peer that is in s.peers NOW (once)
 G_ClosePeers == WithRun /\ lclosed /\ ~peersClosed
@@ -313,7 +336,7 @@ ClosePeers ==
     /\ peersClosed' = TRUE
     /\ dead' = [c \in Conns |-> dead[c] \/ IsPeer(c)]
     /\ act' = Lbl("ClosePeers", "", 0)
-    /\ UNCHANGED <<lim, st, out, sem, sub, loopOn, gone, tgLive, stop, lclosed, runLive, conn, th>>
+    /\ UNCHANGED <<lim, st, out, sem, sub, loopOn, gone, tgLive, stop, lclosed, runLive, conn, th, stop2>>
 
 \* Run waits until s.peers is empty, then leaves the group
 G_RunExit == runLive = 1 /\ peersClosed /\ (\A p \in Peers : ~loopOn[p]) /\ (\A c \in Conns : ~IsPeer(c))
@@ -322,7 +345,7 @@ RunExit ==
     /\ runLive' = 0
     /\ tgLive' = tgLive - 1
     /\ act' = Lbl("RunExit", "", 0)
-    /\ UNCHANGED <<lim, st, out, sem, sub, loopOn, gone, stop, lclosed, peersClosed, dead, conn, th>>
+    /\ UNCHANGED <<lim, st, out, sem, sub, loopOn, gone, stop, lclosed, peersClosed, dead, conn, th, stop2>>
 
 \* plain members: rhp4.Server stream goroutines, the wallet's rebroadcast goroutine, ThreadGroup users
 G_ThAdd(t) == th[t] = "idle"
@@ -333,7 +356,7 @@ ThAdd(t) ==
          ELSE IF DevAddUnlocked
            THEN th' = [th EXCEPT ![t] = "chk"] /\ tgLive' = tgLive /\ act' = Lbl("ThCheck", t, 0)
            ELSE th' = [th EXCEPT ![t] = "live"] /\ tgLive' = tgLive + 1 /\ act' = Lbl("ThAdd", t, 0)
-    /\ UNCHANGED <<lim, st, out, sem, sub, loopOn, gone, stop, lclosed, peersClosed, dead, runLive, conn>>
+    /\ UNCHANGED <<lim, st, out, sem, sub, loopOn, gone, stop, lclosed, peersClosed, dead, runLive, conn, stop2>>
 
 G_ThCommit(t) == th[t] = "chk"      \* deviation only
 ThCommit(t) ==
@@ -341,7 +364,7 @@ ThCommit(t) ==
     /\ th' = [th EXCEPT ![t] = "live"]
     /\ tgLive' = tgLive + 1
     /\ act' = Lbl("ThAdd", t, 0)
-    /\ UNCHANGED <<lim, st, out, sem, sub, loopOn, gone, stop, lclosed, peersClosed, dead, runLive, conn>>
+    /\ UNCHANGED <<lim, st, out, sem, sub, loopOn, gone, stop, lclosed, peersClosed, dead, runLive, conn, stop2>>
 
 G_ThDone(t) == th[t] = "live"
 ThDone(t) ==
@@ -349,7 +372,7 @@ ThDone(t) ==
     /\ th' = [th EXCEPT ![t] = "done"]
     /\ tgLive' = tgLive - 1
     /\ act' = Lbl("ThDone", t, 0)
-    /\ UNCHANGED <<lim, st, out, sem, sub, loopOn, gone, stop, lclosed, peersClosed, dead, runLive, conn>>
+    /\ UNCHANGED <<lim, st, out, sem, sub, loopOn, gone, stop, lclosed, peersClosed, dead, runLive, conn, stop2>>
 
 -----------------------------------------------------------------------------
 (* CONN family *)
@@ -364,7 +387,7 @@ AllowCheck(c) ==
     /\ IF stop = "no" /\ CountFor(c) < CapFor(c)      \* (a connection accepted before the listener closed may get here after it)
          THEN conn' = [conn EXCEPT ![c] = "checked"] /\ tgLive' = tgLive + 1 /\ act' = Lbl("AllowCheck", c, 1)
          ELSE conn' = [conn EXCEPT ![c] = "rejected"] /\ tgLive' = tgLive /\ act' = Lbl("AllowCheck", c, 0)
-    /\ UNCHANGED <<lim, st, out, sem, sub, loopOn, gone, stop, lclosed, peersClosed, dead, runLive, th>>
+    /\ UNCHANGED <<lim, st, out, sem, sub, loopOn, gone, stop, lclosed, peersClosed, dead, runLive, th, stop2>>
 
 \* the listener is closed: the connection is not taken at all
 G_Refuse(c) == conn[c] = "idle" /\ c \in InConns /\ lclosed
@@ -372,14 +395,14 @@ Refuse(c) ==
     /\ G_Refuse(c)
     /\ conn' = [conn EXCEPT ![c] = "rejected"]
     /\ act' = Lbl("Refuse", c, 0)
-    /\ UNCHANGED <<lim, st, out, sem, sub, loopOn, gone, tgLive, stop, lclosed, peersClosed, dead, runLive, th>>
+    /\ UNCHANGED <<lim, st, out, sem, sub, loopOn, gone, tgLive, stop, lclosed, peersClosed, dead, runLive, th, stop2>>
 
 G_Handshake(c) == conn[c] = "checked"
 Handshake(c) ==
     /\ G_Handshake(c)
     /\ conn' = [conn EXCEPT ![c] = "shaken"]
     /\ act' = Lbl("Handshake", c, 0)
-    /\ UNCHANGED <<lim, st, out, sem, sub, loopOn, gone, tgLive, stop, lclosed, peersClosed, dead, runLive, th>>
+    /\ UNCHANGED <<lim, st, out, sem, sub, loopOn, gone, tgLive, stop, lclosed, peersClosed, dead, runLive, th, stop2>>
 
 \* the handshake fails (remote hangs up, deadline).  Once the handshake is through the syncer does not notice
 \* a hang-up before runPeer's first acceptRPC, i.e. a "shaken" attempt always proceeds to AddPeer.
@@ -389,7 +412,7 @@ Abort(c) ==
     /\ conn' = [conn EXCEPT ![c] = "closed"]
     /\ tgLive' = tgLive - 1
     /\ act' = Lbl("Abort", c, 0)
-    /\ UNCHANGED <<lim, st, out, sem, sub, loopOn, gone, stop, lclosed, peersClosed, dead, runLive, th>>
+    /\ UNCHANGED <<lim, st, out, sem, sub, loopOn, gone, stop, lclosed, peersClosed, dead, runLive, th, stop2>>
 
 \* addPeer: s.peers[addr] = p under s.mu.  Intended design: under this lock the cap is re-checked and nothing
 \* is inserted once Run's teardown has begun.
@@ -399,7 +422,7 @@ AddPeer(c) ==
     /\ IF (~DevCapCheckThenAct /\ CountFor(c) >= CapFor(c)) \/ (~DevSweepOnce /\ peersClosed)
          THEN conn' = [conn EXCEPT ![c] = "rejected"] /\ tgLive' = tgLive - 1 /\ act' = Lbl("AddPeer", c, 0)
          ELSE conn' = [conn EXCEPT ![c] = "peer"] /\ tgLive' = tgLive /\ act' = Lbl("AddPeer", c, 1)
-    /\ UNCHANGED <<lim, st, out, sem, sub, loopOn, gone, stop, lclosed, peersClosed, dead, runLive, th>>
+    /\ UNCHANGED <<lim, st, out, sem, sub, loopOn, gone, stop, lclosed, peersClosed, dead, runLive, th, stop2>>
 
 \* runPeer's own tg.Add: refused after Stop -> the peer is removed at once
 G_RunPeer(c) == conn[c] = "peer"
@@ -408,7 +431,7 @@ RunPeer(c) ==
     /\ IF stop = "no"
          THEN conn' = [conn EXCEPT ![c] = "running"] /\ tgLive' = tgLive /\ act' = Lbl("RunPeer", c, 1)
          ELSE conn' = [conn EXCEPT ![c] = "closed"] /\ tgLive' = tgLive - 1 /\ act' = Lbl("RunPeer", c, 0)
-    /\ UNCHANGED <<lim, st, out, sem, sub, loopOn, gone, stop, lclosed, peersClosed, dead, runLive, th>>
+    /\ UNCHANGED <<lim, st, out, sem, sub, loopOn, gone, stop, lclosed, peersClosed, dead, runLive, th, stop2>>
 
 G_RemovePeer(c) == conn[c] = "running"
 RemovePeer(c) ==
@@ -416,7 +439,7 @@ RemovePeer(c) ==
     /\ conn' = [conn EXCEPT ![c] = "closed"]
     /\ tgLive' = tgLive - 1
     /\ act' = Lbl("RemovePeer", c, 0)
-    /\ UNCHANGED <<lim, st, out, sem, sub, loopOn, gone, stop, lclosed, peersClosed, dead, runLive, th>>
+    /\ UNCHANGED <<lim, st, out, sem, sub, loopOn, gone, stop, lclosed, peersClosed, dead, runLive, th, stop2>>
 
 -----------------------------------------------------------------------------
 \* steps the environment decides (when a peer sends, hangs up, when Close is called, when a connection is
@@ -424,7 +447,7 @@ RemovePeer(c) ==
 EnvNext ==
     \/ \E p \in Peers, r \in RpcIds : Arrive(p, r)
     \/ \E p \in Peers : Disconnect(p)
-    \/ CloseListener \/ StopBegin
+    \/ CloseListener \/ StopBegin \/ Stop2Begin
     \/ \E t \in Threads : ThAdd(t)
     \/ \E c \in Conns : AllowCheck(c) \/ Refuse(c) \/ Handshake(c)
     \/ \E c \in Conns : (stop = "no" /\ Abort(c)) \/ (~dead[c] /\ RemovePeer(c))    \* the remote hangs up
@@ -434,7 +457,7 @@ InternalNext ==
     \/ \E p \in Peers : AcquirePeer(p) \/ AcquireSubnet(p) \/ Spawn(p) \/ LoopExit(p)
     \/ \E p \in Peers, r \in RpcIds :
           TgAdd(p, r) \/ Handle(p, r) \/ HandleDone(p, r) \/ ReleaseSubnet(p, r) \/ ReleasePeer(p, r) \/ Abandon(p, r)
-    \/ StopWait \/ StopReturn \/ ClosePeers \/ RunExit
+    \/ StopWait \/ StopReturn \/ Stop2Return \/ ClosePeers \/ RunExit
     \/ \E t \in Threads : ThCommit(t) \/ ThDone(t)
     \/ \E c \in Conns : AddPeer(c) \/ RunPeer(c)
     \/ \E c \in Conns : (stop # "no" /\ Abort(c))       \* handshake deadline (ConnectTimeout)
@@ -442,7 +465,7 @@ InternalNext ==
 
 \* so that TLC's deadlock check flags exactly the states in which something is stuck (a Stop that hangs)
 Terminated ==
-    /\ stop = "returned"
+    /\ stop = "returned" /\ (TwoStoppers => stop2 = "returned")
     /\ \A p \in Peers, r \in RpcIds : st[p][r] = "final" \/ (p \in OneShot /\ r > 1)
     /\ \A c \in Conns : conn[c] \in {"rejected", "closed"}
     /\ \A t \in Threads : th[t] \in {"done", "refused"}
@@ -495,9 +518,9 @@ TgAccounting ==
     tgLive = Cardinality(Handlers) + Cardinality({p \in Peers : loopOn[p]}) + runLive
              + Cardinality(ConnHolds) + Cardinality({t \in Threads : th[t] = "live"})
 
-\* Stop returns only when no member is live
+\* EVERY Stop returns only when no member is live
 StopWaits ==
-    stop = "returned" =>
+    (stop = "returned" \/ stop2 = "returned") =>
         /\ Handlers = {}
         /\ \A p \in Peers : ~loopOn[p]
         /\ runLive = 0
@@ -513,5 +536,6 @@ AddAfterStopRejected ==
 
 \* liveness (under FairSpec): Stop returns, every RPC that arrived is settled
 StopReturns == (stop # "no") ~> (stop = "returned")
+Stop2Returns == (stop2 = "waiting") ~> (stop2 = "returned")
 RpcsSettle == \A p \in Peers, r \in RpcIds : (st[p][r] = "arrived" /\ stop # "no") ~> (st[p][r] = "final")
 =============================================================================
